@@ -680,10 +680,10 @@ func timerNilSafe(c *core.Ctx, R string) {
 // c19WhoClears — C19.3b: a timer is cancelled only by the sites that own its life cycle.
 func c19WhoClears(c *core.Ctx) {
 	const R = "C19.3b"
-	c.Rule(R, "WHO(cancel): each timer holder is cancelled only at the sites of its life-cycle table — pingIntervalTimer: OnClose; pingTimeoutTimer: OnClose, clearTransport, resetPingTimeout (before re-arming), onPacket's PONG branch; upgradeTimeoutTimer: MaybeUpgrade.cleanup; checkIntervalTimer: cleanup and the probe branch before re-arming; a cancellation elsewhere silently stops heartbeats or noop releases")
+	c.Rule(R, "WHO(cancel): each timer holder is cancelled only at the sites of its life-cycle table — pingIntervalTimer: OnClose; pingTimeoutTimer: OnClose, resetPingTimeout (before re-arming), onPacket's PONG branch (not clearTransport: C07.6); upgradeTimeoutTimer: MaybeUpgrade.cleanup; checkIntervalTimer: cleanup and the probe branch before re-arming; a cancellation elsewhere silently stops heartbeats or noop releases")
 	table := map[string]map[string]bool{
 		"socket.pingIntervalTimer": {sockOnClose: true},
-		"socket.pingTimeoutTimer":  {sockOnClose: true, sockClearTr: true, "engine.(*socket).resetPingTimeout": true, sockOnPacket: true},
+		"socket.pingTimeoutTimer":  {sockOnClose: true, "engine.(*socket).resetPingTimeout": true, sockOnPacket: true}, // not clearTransport: the deadline survives an upgrade (C07.6)
 		"upgradeTimeoutTimer":      {sockUpgrade + "$cleanup": true},
 		"checkIntervalTimer":       {sockUpgrade + "$cleanup": true, sockUpgrade + "$onPacket": true},
 	}
@@ -710,7 +710,7 @@ func c19WhoClears(c *core.Ctx) {
 			c.Check(R, keyf("%s/cancels(%s)", u.Key, h), cl.Pos(), allowed[u.Key], "cancellation site is in the holder's life-cycle table")
 		}
 	}
-	c.Need(R, "timer cancellation sites in engine", n, 8)
+	c.Need(R, "timer cancellation sites in engine", n, 7)
 }
 
 // c19RuntimeTimerOps — C19.1b: who may operate the runtime timer.
@@ -950,7 +950,7 @@ func c19Cancelled(c *core.Ctx, R string) {
 // cancelled (C19.5), so Refresh is meaningful only on a holder that nothing
 // cancels before its owner's teardown.
 func c19RefreshOnlyLive(c *core.Ctx, R string) {
-	c.Rule(R, "Refresh is applied only to a timer that cannot have been cancelled: for every holder.Load().Refresh() in package engine, every cancellation of that holder (ClearTimeout / ClearInterval / Stop) lies in the owner's teardown socket.OnClose — pingTimeoutTimer is also cancelled by clearTransport (upgrade) and by the PONG branch, so its deadline is re-created (resetPingTimeout), never refreshed")
+	c.Rule(R, "Refresh is applied only to a timer that cannot have been cancelled: for every holder.Load().Refresh() in package engine, every cancellation of that holder (ClearTimeout / ClearInterval / Stop) lies in the owner's teardown socket.OnClose — pingTimeoutTimer is also cancelled by the PONG branch, so its deadline is re-created (resetPingTimeout), never refreshed")
 	cancels := map[string][]string{}
 	for _, u := range c.P.Units {
 		if u.Pkg != c.P.Pkgs["engine"] {
